@@ -71,9 +71,14 @@ def _oracle(P):
     north_in = all(np.dot(np.cross(P[i], P[(i + 1) % k]), z) > MARG for i in range(k))
     south_in = all(np.dot(np.cross(P[i], P[(i + 1) % k]), -z) > MARG for i in range(k))
     for i in range(k):
-        s = float(np.dot(np.cross(P[i], P[(i + 1) % k]), z))
+        a, b = P[i], P[(i + 1) % k]
+        n = np.cross(a, b)
+        s = float(np.dot(n, z))
         if abs(s) < MARG and not (pole_corner[i] or pole_corner[(i + 1) % k]):
-            return None  # a pole (nearly) on an edge
+            # the edge's great circle passes (nearly) through the poles: inadmissible only if a pole lies on the arc itself
+            for pole in (z, -z):
+                if np.dot(np.cross(a, pole), n) > -MARG and np.dot(np.cross(pole, b), n) > -MARG:
+                    return None
     for i in range(k):
         a, b = P[i], P[(i + 1) % k]
         n = np.cross(a, b)
@@ -152,6 +157,8 @@ def _faces(tier):
                 [(0, 10), (10, 30), (-10, 30)], [(0, 40), (-12, 12), (9, 8)], [(0, 5), (15, 6), (14, 25), (-13, 22)],
                 [(0, 0), (20, 10), (0, 30), (-20, 12)], [(-10, 0), (10, 0), (12, 20), (0, 28), (-11, 21)],
                 [(0, 89), (120, 88), (-120, 87)], [(0, 80), (90, 81), (180, 79), (-90, 82)],
+                # latitude-longitude aligned quads (meridian edges: their great circles pass through the poles)
+                [(10, 10), (50, 10), (50, 60), (10, 60)], [(-10, 10), (50, 10), (50, 60), (-10, 60)], [(-30, -20), (20, -20), (20, 25), (-30, 25)], [(100, 70), (140, 70), (140, 85), (100, 85)],
             ]):
                 P = np.array([meshes.lonlat_to_xyz(lon0 + a, sgn * b) for a, b in ll])
                 yield {"fam": "aligned", "lon0": lon0, "sgn": sgn, "k": k}, P
